@@ -79,7 +79,7 @@ func DateTimeFromProto(proto *dtpb.DateTime) (DateTime, error) {
 	case dtpb.DateTime_YEAR:
 		l = dtYearLayout
 	}
-	return DateTime{t, l}, nil
+	return DateTime{truncateToLayout(t, l), l}, nil
 }
 
 // ToProtoDateTime returns a proto DateTime based on a system DateTime.
